@@ -1,0 +1,57 @@
+//! Hooks for runtime verification.
+//!
+//! This module only exists if the `verif-hooks` feature is enabled. It
+//! provides a process-global handler that an external harness can install
+//! to observe named points in the code, delay or kill the process there, or
+//! inject faults. Without a handler installed, every hook is a no-op.
+
+use std::sync::{Arc, RwLock};
+
+
+//------------ Handler -------------------------------------------------------
+
+/// A handler for verification hooks.
+pub trait Handler: Send + Sync {
+    /// Called when execution reaches the named point.
+    ///
+    /// The handler may record the event, sleep, rendezvous with another
+    /// thread or kill the process.
+    fn point(&self, name: &str, detail: &str) {
+        let _ = (name, detail);
+    }
+
+    /// Called when the code asks whether a fault should be injected.
+    ///
+    /// Returning `None` means no fault.
+    fn fault(&self, name: &str, detail: &str) -> Option<u32> {
+        let _ = (name, detail);
+        None
+    }
+}
+
+static HANDLER: RwLock<Option<Arc<dyn Handler>>> = RwLock::new(None);
+
+/// Installs or removes the global handler.
+pub fn set_handler(handler: Option<Arc<dyn Handler>>) {
+    *HANDLER.write().unwrap_or_else(|err| err.into_inner()) = handler;
+}
+
+fn handler() -> Option<Arc<dyn Handler>> {
+    HANDLER.read().unwrap_or_else(|err| err.into_inner()).clone()
+}
+
+/// Reports that execution reached the named point.
+///
+/// The detail is only computed if a handler is installed.
+pub fn point<D: AsRef<str>>(name: &str, detail: impl FnOnce() -> D) {
+    if let Some(handler) = handler() {
+        handler.point(name, detail().as_ref())
+    }
+}
+
+/// Asks whether a fault should be injected at the named site.
+pub fn fault<D: AsRef<str>>(
+    name: &str, detail: impl FnOnce() -> D
+) -> Option<u32> {
+    handler().and_then(|handler| handler.fault(name, detail().as_ref()))
+}
